@@ -306,6 +306,18 @@ func (this *DatasetManager) processSnapshot(data []byte) error {
 				// a log of a group yet must join it and must not bootstrap a log of its own.
 				this.allocator.watch(partition, false)
 			}
+		} else {
+			// The entries that changed the replica sets since this node's last entry are
+			// compacted into the snapshot as well
+			for _, partitionMeta := range dataset.GetPartitions() {
+				partitionId, err := uuid.FromBytes(partitionMeta.GetId())
+				if err != nil {
+					return err
+				}
+				if partition, err := this.datasets[id].getPartition(partitionId); err == nil {
+					partition.setNodes(partitionMeta.GetNodeIds())
+				}
+			}
 		}
 	}
 	// Datasets whose deletion is covered by the snapshot
